@@ -735,6 +735,22 @@ def run_behaviour(tid, init, hist, frm, seed=0):
     if any(a["op"] == "Export" for a in hist):
         import exports
         exports.ensure_zygote()       # before this process runs anything of this behaviour
+        if os.environ.get("VERIF_WARMUP"):
+            # replaying one behaviour alone: a finding that stems from state an EARLIER export left
+            # behind in the process needs that history - run every exporter once on a scratch copy
+            scratch = World(init, seed, tid)
+            for a in hist:
+                if a["op"] == "Export":
+                    for ex in exports.ALL_EXPORTERS:
+                        try:
+                            exports.do_export(scratch.h[a["h"]], ex)
+                        except Exception:
+                            pass
+                    break
+                try:
+                    scratch.prepare_total(a)()
+                except Exception:
+                    pass
     w = World(init, seed, tid)
     steps = []
     for i, a in enumerate(hist, start=1):
